@@ -172,3 +172,36 @@ func DecodeAnnounced(data []byte) int {
 	n := uint32(data[0])<<8 | uint32(data[1])
 	return len(c.take(2, n)) + len(c.takeChecked(2, n))
 }
+
+// bitLength counts the bits of v with a halving loop: its result is controlled by v through the
+// trip count only (no data flows from v into the counter).
+func bitLength(v int) int {
+	n := 0
+	for v > 0 {
+		v >>= 1
+		n++
+	}
+	return n
+}
+
+// DecodeLUT sizes a lookup table as 2^bitLength(maxVal) with maxVal derived from an unvalidated
+// precision byte: exponential-allocation control through a trip count (MAKE).
+func DecodeLUT(data []byte) ([]int8, error) {
+	if len(data) < 2 {
+		return nil, errBad
+	}
+	maxVal := (1 << uint(data[0])) - 1
+	lut := make([]int8, 2<<uint(bitLength(maxVal)))
+	return lut, nil
+}
+
+// DecodeLUTOK is the corrected twin: the precision is validated first, so the halving loop runs at
+// most 16 times (must not be reported: bit-length helpers are judged with each caller's argument).
+func DecodeLUTOK(data []byte) ([]int8, error) {
+	if len(data) < 2 || data[0] < 2 || data[0] > 16 {
+		return nil, errBad
+	}
+	maxVal := (1 << uint(data[0])) - 1
+	lut := make([]int8, 2<<uint(bitLength(maxVal)))
+	return lut, nil
+}
